@@ -213,6 +213,21 @@ Section Enc.
     | Some (pre, en') => pre_rounds zs P pre 8 rounds en'
     end.
 
+  (* size queries: sm2_encrypt_finish / sm2_decrypt_finish with out == NULL report the maximum *)
+  Definition encrypt_finish_query (chunks : list (list N)) : option N :=
+    match fold_left (buf_update 255) chunks (Some []) with
+    | None => None
+    | Some b => if (255 <? lenN b)%N then None else if (lenN b =? 0)%N then None else Some 366%N
+    end.
+  Definition decrypt_finish_query (chunks : list (list N)) : option N :=
+    match fold_left (buf_update 366) chunks (Some []) with
+    | None => None
+    | Some b => if (366 <? lenN b)%N then None else if (lenN b <? 45)%N then None else Some 255%N
+    end.
+  (* return value of sm2_ciphertext_print: the same parse as sm2_decrypt *)
+  Definition ciphertext_print_ok (a : list N) : bool :=
+    match ct_from_der a with Some (_, []) => true | _ => false end.
+
   (* ---------- point import for ECDH: sm2_z256_point_from_octets ---------- *)
   Fixpoint fpow_pos (x : T NO) (e : positive) : T NO :=
     match e with
